@@ -153,6 +153,12 @@ def run_case(case, workdir):
             # a particle closer than that to a bound legitimately restarts up to eps*width away
             atol = (2e-4 if bits == 32 else 3e-6) * width
             per = np.array([f == "vm" for f in scn["target"]["factor"]])
+            if x_start.shape == x_want.shape and not np.all(np.isfinite(x_start)) and np.any(np.ptp(x_want, axis=0) == 0):
+                # the drawn rows are all copies of ONE source particle in some coordinate: a whitening fitted on them divides
+                # by a zero spread and the kernel's start is undefined (0/0).  What the draw itself did was judged above;
+                # where the mutation starts from is not defined for this population, so it is not judged (DESIGN 7.3)
+                probes["kernel_start_degenerate_population"] = probes.get("kernel_start_degenerate_population", 0) + 1
+                continue
             d = np.abs(x_start - x_want)
             if per.any():
                 d[:, per] = np.minimum(d[:, per], np.abs(width[per] - d[:, per]))
